@@ -11,14 +11,21 @@ import (
 	"database/sql/driver"
 	"errors"
 	"io"
+	"sync"
+	"time"
 
 	_ "github.com/arana-db/parser/test_driver"
+	"github.com/bluele/gcache"
 
+	"seata.apache.org/seata-go/pkg/datasource/sql/datasource"
 	"seata.apache.org/seata-go/pkg/datasource/sql/exec/at"
 	"seata.apache.org/seata-go/pkg/datasource/sql/types"
 	"seata.apache.org/seata-go/pkg/datasource/sql/undo"
 	undomysql "seata.apache.org/seata-go/pkg/datasource/sql/undo/mysql"
+	"seata.apache.org/seata-go/pkg/protocol/branch"
+	"seata.apache.org/seata-go/pkg/protocol/message"
 	"seata.apache.org/seata-go/pkg/remoting/getty"
+	"seata.apache.org/seata-go/pkg/rm"
 	"seata.apache.org/seata-go/pkg/tm"
 	"seata.apache.org/seata-go/pkg/zzverif/vrt"
 )
@@ -36,6 +43,7 @@ type c16World struct {
 	lastResult  c16Result
 	lastRowTag  int64
 	beginOpts   []driver.TxOptions
+	noFail      bool // the driver does not fail (the part of a run that only sets the stage)
 }
 
 func (w *c16World) rec(op, query string, args []driver.NamedValue) {
@@ -44,6 +52,9 @@ func (w *c16World) rec(op, query string, args []driver.NamedValue) {
 
 // fails decides (symbolically) whether the underlying driver call fails.
 func (w *c16World) fails() bool {
+	if w.noFail {
+		return false
+	}
 	if vrt.Bool("driver.fails") {
 		w.failed = true
 		return true
@@ -362,5 +373,131 @@ func VerifC16Tx() {
 	}
 	if err != nil {
 		vrt.Assert(errors.Is(err, c16Err), "tx/error-is-the-drivers-error")
+	}
+}
+
+type c16Connector struct{ c *c16Conn }
+
+func (k c16Connector) Connect(context.Context) (driver.Conn, error) { return k.c, nil }
+func (k c16Connector) Driver() driver.Driver                        { return nil }
+
+// VerifC16AfterGlobal: a pooled connection of the XA proxy that has just served a
+// global transaction (one autocommit statement, or an explicit local transaction,
+// with the branch registered and prepared) goes back to the pool - database/sql
+// resets its session - and is then used outside of any global transaction: an
+// explicit local transaction or a single statement, the driver failing or not.
+// From there on the driver sees what it would see without the proxy.
+func VerifC16AfterGlobal() {
+	w, target := c16Setup()
+	vrt.Redirect((*getty.GettyRemotingClient).SendSyncRequest, func(_ *getty.GettyRemotingClient, msg interface{}) (interface{}, error) {
+		w.coordinator++
+		switch msg.(type) {
+		case message.BranchRegisterRequest:
+			return message.BranchRegisterResponse{AbstractTransactionResponse: message.AbstractTransactionResponse{
+				AbstractResultMessage: message.AbstractResultMessage{ResultCode: message.ResultCodeSuccess}}, BranchId: 7}, nil
+		case message.BranchReportRequest:
+			return message.BranchReportResponse{AbstractTransactionResponse: message.AbstractTransactionResponse{
+				AbstractResultMessage: message.AbstractResultMessage{ResultCode: message.ResultCodeSuccess}}}, nil
+		}
+		return nil, errors.New("unexpected request")
+	})
+	branchStatusCache = gcache.New(16).LRU().Build()
+	xaConnTimeout = time.Hour
+	held := vrt.Bool("server.needs.the.connection.held")
+	res := &DBResource{resourceID: "res", dbType: types.DBTypeMySQL, connector: c16Connector{target}, shouldBeHeld: held, branchType: branch.BranchTypeXA}
+	mgr := &XAResourceManager{resourceCache: sync.Map{}, basic: datasource.NewBasicSourceManager(), rmRemoting: rm.GetRMRemotingInstance()}
+	mgr.resourceCache.Store("res", res)
+	rm.GetRmCacheInstance().RegisterResourceManager(mgr)
+	c := &XAConn{Conn: &Conn{res: res, txCtx: types.NewTxCtx(), targetConn: target, autoCommit: true, dbType: types.DBTypeMySQL, dbName: "db"}}
+	gctx := tm.InitSeataContext(context.Background())
+	tm.SetXID(gctx, "10.0.0.1:8091:5")
+
+	// ---- the global transaction's work on this connection
+	w.noFail = true
+	var gerr error
+	gpanic := false
+	explicit := vrt.Bool("global.work.in.an.explicit.transaction")
+	func() {
+		defer func() {
+			if recover() != nil {
+				gpanic = true
+			}
+		}()
+		if !explicit {
+			_, gerr = c.ExecContext(gctx, "UPDATE t SET a = 1 WHERE id = 1", nil)
+			return
+		}
+		var tx driver.Tx
+		tx, gerr = c.BeginTx(gctx, driver.TxOptions{})
+		if gerr != nil {
+			return
+		}
+		if _, gerr = c.ExecContext(gctx, "UPDATE t SET a = 1 WHERE id = 1", nil); gerr != nil {
+			_ = tx.Rollback()
+			return
+		}
+		gerr = tx.Commit()
+	}()
+	if gpanic || gerr != nil {
+		return // C17's subject
+	}
+	// ---- back to the pool and out again
+	if rerr := c.ResetSession(context.Background()); rerr != nil {
+		return // database/sql discards the connection
+	}
+	w.noFail = false
+	w.failed = false
+	start, coord := len(w.journal), w.coordinator
+	ctx := context.Background()
+	q := "UPDATE t SET a = ? WHERE id = ?"
+	args := []driver.NamedValue{{Ordinal: 1, Value: vrt.Int64("arg1")}, {Ordinal: 2, Value: vrt.Int64("arg2")}}
+	local := vrt.Bool("local.work.in.an.explicit.transaction")
+	commit := vrt.Bool("commit")
+	var want []string
+	var err error
+	panicked := false
+	func() {
+		defer func() {
+			if recover() != nil {
+				panicked = true
+			}
+		}()
+		if !local {
+			want = []string{"Exec"}
+			_, err = c.ExecContext(ctx, q, args)
+			return
+		}
+		want = []string{"Begin"}
+		var tx driver.Tx
+		tx, err = c.BeginTx(ctx, driver.TxOptions{})
+		if err != nil {
+			return
+		}
+		want = append(want, "Exec")
+		_, _ = c.ExecContext(ctx, q, args)
+		if commit {
+			want = append(want, "Commit")
+			err = tx.Commit()
+		} else {
+			want = append(want, "Rollback")
+			err = tx.Rollback()
+		}
+	}()
+	vrt.Reach("after/done")
+	vrt.Assert(!panicked, "after/no-panic")
+	if panicked {
+		return
+	}
+	got := w.journal[start:]
+	vrt.Assert(w.coordinator == coord, "after/no-coordinator-traffic")
+	vrt.Assert(len(got) == len(want), "after/same-number-of-driver-calls")
+	for i := 0; i < len(want) && i < len(got); i++ {
+		vrt.Assert(got[i].op == want[i], "after/same-driver-calls")
+		if got[i].op == "Exec" {
+			vrt.Assert(got[i].query == q && c16SameArgs(got[i].args, args), "after/same-statement-and-arguments")
+		}
+	}
+	if err != nil {
+		vrt.Assert(errors.Is(err, c16Err), "after/error-is-the-drivers-error")
 	}
 }
